@@ -182,7 +182,7 @@ def rule_zero(ctx):
 def run(ctx):
     m = ctx.pattern()
     spec = valuetag.value_spec(m)
-    t1 = Rule("TS-value", "every union member of Value is touched only under its kind (or (re)initialises a zero/moved payload)", floor=280)
+    t1 = Rule("TS-value", "every union member of Value is touched only under its kind (or (re)initialises a zero/moved payload)", floor=250)
     tx = Rule("TS-sync", "no exit leaves a discriminant written independently of an owning payload; reset() only while in sync", floor=100)
     n = valuetag.run_class(ctx, m, spec, t1, tx)
     for (fn_sig, construct, reason) in SUPPRESS:
